@@ -480,7 +480,9 @@ pub fn run_file(file_path: &str) -> CliResult<ExitCode> {
 /// Format Incan source files.
 pub fn format_files(path: &str, check_mode: bool, diff_mode: bool) -> CliResult<ExitCode> {
     let path = Path::new(path);
-    let files = collect_incn_files(path);
+    // read_dir order is filesystem-specific: sort so that output and processing order are reproducible.
+    let mut files = collect_incn_files(path);
+    files.sort();
 
     if files.is_empty() {
         return Err(CliError::failure("No .incn files found"));
